@@ -170,6 +170,11 @@ Proof.
   rewrite S in H. specialize (H D). discriminate.
 Qed.
 
+(* the part of the full statement that does hold: every scenario that ends with a clean Shutdown *)
+Theorem C14_full_statement_partial : forall i,
+  in_domain14 i = true -> ei_clean i = true -> ei_gate i = false -> spec_c14 i (model_eobs i) = [].
+Proof. exact spec_c14_sound_clean. Qed.
+
 (* non-vacuity: a scenario with a retry that succeeds, a mapping error, retry exhaustion, a partial batch flushed by
    the timer and a wrong-typed payload; clean Shutdown: every clause holds *)
 Example C14_scenario_example :
@@ -223,3 +228,4 @@ Print Assumptions C14_pending_closed_form.
 Print Assumptions C14_shutdown_refuted.
 Print Assumptions C14_shutdown_inflight_refuted.
 Print Assumptions C14_full_statement_refuted.
+Print Assumptions C14_full_statement_partial.
